@@ -27,7 +27,12 @@ class Grammar(qc.QGrammar):
             has_ch = 0 if (b >> 4) % 4 == 0 and typ != sc.T_READ else 1
             active = 2 if (b >> 6) % 4 else 0
             cancel_at = [0, 0, 1, 2, 4][b2 % 5]
-            P.source(s, typ, tq, flags=has_ch | active, hwork=[0, 80, 400][(b2 >> 3) % 3], cancel_at=cancel_at,
+            regh = [0, 0, 8, 8 | 16][(h[16] >> (2 * s)) % 4]          # registration handler: none / logging only / cancels the source
+            if regh:
+                P.features.add("registration-handler" + ("-cancels" if regh & 16 else ""))
+                if regh & 16:
+                    active = 0                          # created inactive, so that events can be pending when registration happens
+            P.source(s, typ, tq, flags=has_ch | active | regh, hwork=[0, 80, 400][(b2 >> 3) % 3], cancel_at=cancel_at,
                      a=20000, b=[100000, 250000, 700000][(b2 >> 5) % 3] if typ == sc.T_TIMER else 0, c=0)
             P.features.add("type=%d" % typ)
             if cancel_at:
@@ -67,7 +72,7 @@ class Grammar(qc.QGrammar):
             P.features.add("cancel-from-target-queue-item" if q == S["tq"] and q == 0 else "cancel-from-other-item")
             return o
         if kind == "cancelwait":
-            if S["flags"] & 1 or S["cancel_at"]:
+            if S["flags"] & 1 or S["cancel_at"] or S["flags"] & 16:
                 return None        # dispatch_source_cancel_and_wait is illegal with a cancel handler; keep it away from handler-side cancels too
             P.features.add("cancel-and-wait")
             return P.op(ctx, "cancelwait", a=s, src=s, thread=ctx)
@@ -97,6 +102,8 @@ def cancel_verdicts(prog, hist):
             where = None
             if opid == -200 - sid:
                 where = "handler"
+            elif opid == -600 - sid:
+                where = "registration-handler"
             elif o is not None and o.kind in ("cancel", "cancelwait") and o.a == sid:
                 par = o.meta.get("parent")
                 if o.kind == "cancelwait":
@@ -133,7 +140,7 @@ def cancel_verdicts(prog, hist):
                 out.append(Verdict("inside the cancellation handler of READ source %d its descriptor was still registered in the library's epoll set" % sid, dict(kind="fd-still-monitored")))
         for c, r, where in cancels[:1]:
             after = [s for s in hstarts if s > r]
-            allowed = 0 if where in ("handler", "serial-target-item", "cancelwait") else 1
+            allowed = 0 if where in ("handler", "registration-handler", "serial-target-item", "cancelwait") else 1
             if len(after) > allowed:
                 out.append(Verdict("dispatch_source_cancel on source %d (called from %s) returned at event %d, yet %d event handler invocation(s) started afterwards (allowed %d), first at event %d" %
                                    (sid, where, r, len(after), allowed, after[allowed]), dict(kind="handler-after-cancel", where=where)))
@@ -159,7 +166,7 @@ class Check(sc.SCheck):
     mc_workers = 3
     rule = ("Hypothesis recipe -> program with 1-3 sources (DATA_ADD, short-interval TIMER, READ on a pipe) on serial / concurrent / global target queues, with and "
             "without cancellation handler, created active or inactive: dispatch_source_cancel is issued before activation, after activation before any event, from the "
-            "event handler (at its 1st/2nd/4th invocation), from an item on the serial target queue, from items on other queues, from foreign threads while events keep "
+            "event handler (at its 1st/2nd/4th invocation), from the registration handler while events are already pending, from an item on the serial target queue, from items on other queues, from foreign threads while events keep "
             "arriving (merges, peer writes, timer ticks), twice, and as dispatch_source_cancel_and_wait (only where legal: no cancel handler, not from the handler). "
             "Afterwards the harness cancels what is still live and blocks until every cancellation handler has run (a forgotten cancellation is a stuck witness). "
             "Oracles (one-sided stamps): cancel handler exactly once, on the target queue, not overlapping nor followed by an event-handler invocation; no invocation "
@@ -170,7 +177,7 @@ class Check(sc.SCheck):
     G = Grammar()
 
     def recipe_strategy(self, tier):
-        return qc.recipe_strategy(max_threads=4, max_ops=16 if tier == "quick" else 40, max_bodies=0, body_len=0, header=18, min_ops=4)
+        return qc.recipe_strategy(max_threads=4, max_ops=16 if tier == "quick" else 40, max_bodies=0, body_len=0, header=20, min_ops=4)
 
     def compile(self, recipe, kind="F1", cpu=0, tier="quick"):
         return self.G.compile(recipe, kind, cpu, tier)
